@@ -11,6 +11,14 @@ if start < 0:
 parts = ''.join(open(f'{V}/tools/design_parts/{n}').read() for n in ('design_s10.md', 'design_s11.md', 'design_s12.md'))
 mx = open(f'{V}/seeded/MATRIX.md').read() if os.path.exists(f'{V}/seeded/MATRIX.md') else '(matrix not generated yet: run tools/seed_matrix.py)\n'
 parts = parts.replace('MATRIX_PLACEHOLDER', mx)
+import json, glob
+rows = ['| property | tier | harnesses | paths | solver queries | solver s | wall s | sampled paths replayed natively (agree) |', '|---|---|---|---|---|---|---|---|']
+for f in sorted(glob.glob(f'{V}/evidence/C*.json')):
+    e = json.load(open(f))
+    c = e['coverage']
+    tv = c.get('translator_validation', {})
+    rows.append(f"| {e['property_id']} | {e['tier']} | {len(c.get('harnesses', []))} | {c.get('evaluations')} | {c.get('queries', {}).get('total')} | {c.get('solver_time_s', 0):.0f} | {e.get('wall_s', 0):.0f} | {tv.get('sampled_paths', '-')} ({tv.get('agreed', '-')}) |")
+parts = parts.replace('COST_TABLE', '\n'.join(rows))
 s = s[:start] + parts + '---------------------------------------------------------------------------\n\n' + s[app:]
 open(f'{V}/DESIGN.md', 'w').write(s)
 print('DESIGN.md assembled,', len(s.splitlines()), 'lines')
